@@ -71,6 +71,28 @@ inline MssmPt random_mssm(vt::Rng& r, double lo = 300, double hi = 3000,
    return p;
 }
 
+// left-right mixing m_f (A_f - mu tan(beta)) (resp. cot(beta)) below a fifth of m_L m_R in every sfermion sector: no tachyon
+// arises from the random choice itself
+inline bool mixing_bounded(const MssmPt& p, double frac)
+{
+   const double mf_l[3] = {0.000511, p.Mm, p.Mtau}, mf_d[3] = {0.0047, 0.096, p.Mb}, mf_u[3] = {0.0022, 1.28, p.Mt};
+   for (int i = 0; i < 3; ++i) {
+      if (!(mf_l[i] * std::fabs(p.Ae[i] - p.Mu * p.TB) < frac * std::sqrt(p.ml2[i] * p.me2[i]))) return false;
+      if (!(mf_d[i] * std::fabs(p.Ad[i] - p.Mu * p.TB) < frac * std::sqrt(p.mq2[i] * p.md2[i]))) return false;
+      if (!(mf_u[i] * std::fabs(p.Au[i] - p.Mu / p.TB) < frac * std::sqrt(p.mq2[i] * p.mu2[i]))) return false;
+   }
+   return true;
+}
+
+inline MssmPt valid_mssm(vt::Rng& r, double lo, double hi, double tb_lo, double tb_hi)
+{
+   for (int tries = 0; tries < 1000; ++tries) {
+      MssmPt p = random_mssm(r, lo, hi, tb_lo, tb_hi);
+      if (mixing_bounded(p, 0.2)) return p;
+   }
+   return MssmPt();
+}
+
 // wide hierarchies: every mass scale drawn independently over 2.5 decades (light bino, heavy gluino, split
 // sleptons ...); left-right mixing kept below half of m_L m_R so that the spectrum exists
 inline MssmPt wide_mssm(vt::Rng& r)
